@@ -277,8 +277,8 @@ func (h *ProposalHandler) CheckInitialSignaturesFromLastCommit(ctx sdk.Context, 
 		err := json.Unmarshal(extension, &voteExt)
 		if err != nil {
 			h.logger.Error("CheckInitialSignaturesFromLastCommit: failed to unmarshal vote extension", "error", err)
-			// check for initial sig
-		} else if len(voteExt.InitialSignature.SignatureA) > 0 {
+			// check for initial sig; a signature shorter than the 64 bytes the address recovery reads cannot be one
+		} else if len(voteExt.InitialSignature.SignatureA) >= 64 && len(voteExt.InitialSignature.SignatureB) >= 64 {
 			// verify initial sig
 			evmAddress, err := h.bridgeKeeper.EVMAddressFromSignatures(ctx, voteExt.InitialSignature.SignatureA, voteExt.InitialSignature.SignatureB)
 			if err != nil {
